@@ -187,6 +187,9 @@ func ProcessPrivateComponentLinkages(s *tree.Statement, complex bool) {
 						linkComps = append(linkComps, tgtComp)
 						// Attach to node
 						srcComp.PrivateNodeLinks = linkComps
+						// Copy potentially inherited component name into target node prior to any removal
+						// (removal of sibling nodes may disconnect the node from the parent holding the name)
+						tgtComp.ComponentType = tgtComp.GetComponentName()
 						// Keep track of linked nodes for later removal -- see below
 						identifiedLinkages = append(identifiedLinkages, Pair{Src: sourceComponentElement, Tgt: tgtComp})
 
